@@ -574,14 +574,16 @@ pub fn list_is_empty(bdd: &Rc<Bdd>, builder: &mut SemTypeContext) -> Result<IsEm
     Ok(is_empty)
 }
 
+// `accum` is the member type required so far along the path, `None` while no atom of the path mentions the key:
+// an atom that does not mention the key puts no constraint on it (`{a: A} & {b: B}` has member `a` of type `A`).
 fn bdd_mapping_member_type_inner(
     ctx: &SemTypeContext,
     b: Rc<Bdd>,
     key: MappingStrKey,
-    accum: Rc<SemType>,
+    accum: Option<Rc<SemType>>,
 ) -> anyhow::Result<Rc<SemType>> {
     match b.as_ref() {
-        Bdd::True => Ok(accum),
+        Bdd::True => Ok(accum.unwrap_or_else(|| SemTypeContext::never().into())),
         Bdd::False => Ok(SemTypeContext::never().into()),
         Bdd::Node {
             atom,
@@ -594,9 +596,14 @@ fn bdd_mapping_member_type_inner(
                 Atom::Map(a) => ctx.get_map_atomic(*a),
                 _ => unreachable!(),
             };
-            let a = mapping_member_type_inner(b_atom_type.clone(), key.clone())?;
-            let a = a.intersect(&accum)?;
-            let a = bdd_mapping_member_type_inner(ctx, left.clone(), key.clone(), a.clone())?;
+            let with_atom = match mapping_member_type_inner(b_atom_type.clone(), key.clone())? {
+                None => accum.clone(),
+                Some(a) => Some(match &accum {
+                    Some(acc) => a.intersect(acc)?,
+                    None => a,
+                }),
+            };
+            let a = bdd_mapping_member_type_inner(ctx, left.clone(), key.clone(), with_atom)?;
 
             let b = bdd_mapping_member_type_inner(ctx, middle.clone(), key.clone(), accum.clone())?;
             let c = bdd_mapping_member_type_inner(ctx, right.clone(), key, accum.clone())?;
@@ -660,10 +667,11 @@ fn mapping_atomic_applicable_member_types_inner(
     }
 }
 
+// `None`: the atom does not mention the key
 fn mapping_member_type_inner(
     atomic: Rc<MappingAtomicType>,
     key: MappingStrKey,
-) -> anyhow::Result<Rc<SemType>> {
+) -> anyhow::Result<Option<Rc<SemType>>> {
     let mut member_type: Option<Rc<SemType>> = None;
 
     for ty in mapping_atomic_applicable_member_types_inner(atomic, key)? {
@@ -677,11 +685,7 @@ fn mapping_member_type_inner(
         }
     }
 
-    match member_type {
-        Some(it) => Ok(it),
-        //None => Ok(SemTypeContext::optional_prop().into()),
-        None => Ok(SemTypeContext::never().into()),
-    }
+    Ok(member_type)
 }
 
 fn bdd_mapped_record_member_type_inner_val(
@@ -802,12 +806,22 @@ pub fn mapping_indexed_access(
                 },
             };
             match string_key {
-                Some(sk) => bdd_mapping_member_type_inner(
-                    ctx,
-                    bdd.clone(),
-                    sk,
-                    SemTypeContext::unknown().into(),
-                ),
+                // several literal keys: the union of the members, one key at a time
+                Some(MappingStrKey::Str {
+                    allowed: true,
+                    values,
+                }) if values.len() > 1 => {
+                    let mut acc: Rc<SemType> = SemTypeContext::never().into();
+                    for v in values {
+                        let one = MappingStrKey::Str {
+                            allowed: true,
+                            values: vec![v],
+                        };
+                        acc = acc.union(&bdd_mapping_member_type_inner(ctx, bdd.clone(), one, None)?)?;
+                    }
+                    Ok(acc)
+                }
+                Some(sk) => bdd_mapping_member_type_inner(ctx, bdd.clone(), sk, None),
                 None => bdd_mapped_record_member_type_inner_val(
                     ctx,
                     bdd.clone(),
